@@ -186,6 +186,11 @@ impl Sysline {
             ==> r == Some(self.lines@.last().lineparts@.last().bytes().last()),
         self.lines@.len() == 0 || self.lines@.last().lineparts@.len() == 0 ==> r is None,
 //@end
+//@cut fn path=src/data/sysline.rs impl=Sysline name=count_lines ret=r
+//@spec
+    // C19: the number of lines a message adds to the summary is the number of its lines
+    ensures r as int == self.lines@.len()
+//@end
 //@cut fn path=src/data/sysline.rs impl=Sysline name=ends_with_newline ret=r
 //@replace "char::try_from(byte_last)" "verif_char_of(byte_last)"
 //@replace "NLc == char_" "NLu8_ == char_"
